@@ -192,7 +192,7 @@ static inline void __attribute__((always_inline)) myth_queue_push(myth_thread_qu
   myth_wsqueue_wbarrier();//Guarantee W-W dependency
   MYTH_VERIF_FPOINT("push_top");
   q->top = t + 1;
-  MYTH_VERIF_EV2("QPush", VQ(q), VD(th));
+  MYTH_VERIF_EVQ2("QPush", VQ(q), VD(th), q->top - q->base);
 #if USE_LOCK || USE_LOCK_PUSH
   myth_spin_unlock_body(&q->m_lock);
 #endif
@@ -208,7 +208,7 @@ static inline myth_thread_t __attribute__((always_inline)) myth_queue_pop(myth_t
 
 #if QUICK_CHECK_ON_POP
   if (q->top <= q->base) {
-    MYTH_VERIF_EVZ2("QPop", VQ(q), 0);
+    MYTH_VERIF_EVQZ2("QPop", VQ(q), 0, q->top - q->base);
     return NULL;
   }
 #endif
@@ -230,7 +230,7 @@ static inline myth_thread_t __attribute__((always_inline)) myth_queue_pop(myth_t
   if (base + 1 < top){
     MYTH_VERIF_FPOINT("pop_fast");
     ret = q->ptr[top];
-    MYTH_VERIF_EVZ2("QPop", VQ(q), VD(ret));
+    MYTH_VERIF_EVQZ2("QPop", VQ(q), VD(ret), q->top - q->base);
     //q->ptr[top]=NULL;
 #if USE_LOCK || USE_LOCK_POP
     myth_spin_unlock_body(&q->m_lock);
@@ -260,7 +260,7 @@ static inline myth_thread_t __attribute__((always_inline)) myth_queue_pop(myth_t
 	myth_wsqueue_wbarrier();
 	wc->seq = s + 2;
       }
-      MYTH_VERIF_EVZ2("QPop", VQ(q), VD(ret));
+      MYTH_VERIF_EVQZ2("QPop", VQ(q), VD(ret), q->top - q->base);
       MYTH_VERIF_FPOINT("pop_ulf");
       myth_wsqueue_lock_unlock(&q->lock);
 #if USE_LOCK || USE_LOCK_POP
@@ -272,7 +272,7 @@ static inline myth_thread_t __attribute__((always_inline)) myth_queue_pop(myth_t
       q->top = q->size/2;
       MYTH_VERIF_FPOINT("pop_reset2");
       q->base = q->size/2;
-      MYTH_VERIF_EVZ2("QPop", VQ(q), 0);
+      MYTH_VERIF_EVQZ2("QPop", VQ(q), 0, q->top - q->base);
       MYTH_VERIF_FPOINT("pop_ulf");
       myth_wsqueue_lock_unlock(&q->lock);
 #if USE_LOCK || USE_LOCK_POP
@@ -301,7 +301,7 @@ static inline myth_thread_t myth_queue_take(myth_thread_queue_t q)
   MYTH_VERIF_FPOINT("take");
 #if QUICK_CHECK_ON_STEAL
   if (q->top - q->base <= 0){
-    MYTH_VERIF_EVZ2("QTake", VQ(q), 0);
+    MYTH_VERIF_EVQZ2("QTake", VQ(q), 0, q->top - q->base);
     return NULL;
   }
 #endif
@@ -331,7 +331,7 @@ static inline myth_thread_t myth_queue_take(myth_thread_queue_t q)
     myth_wsqueue_rbarrier();
     ret = q->ptr[b];
     //q->ptr[b]=NULL;
-    MYTH_VERIF_EVZ2("QTake", VQ(q), VD(ret));
+    MYTH_VERIF_EVQZ2("QTake", VQ(q), VD(ret), q->top - q->base);
     MYTH_VERIF_FPOINT("take_ulf");
     myth_wsqueue_lock_unlock(&q->lock);
 #if USE_LOCK || USE_LOCK_TAKE
@@ -340,7 +340,7 @@ static inline myth_thread_t myth_queue_take(myth_thread_queue_t q)
     return ret;
   }else{
     q->base = b;
-    MYTH_VERIF_EVZ2("QTake", VQ(q), 0);
+    MYTH_VERIF_EVQZ2("QTake", VQ(q), 0, q->top - q->base);
     MYTH_VERIF_FPOINT("take_ulf");
     myth_wsqueue_lock_unlock(&q->lock);
 #if USE_LOCK || USE_LOCK_TAKE
@@ -451,7 +451,7 @@ static inline void myth_queue_put(myth_thread_queue_t q, myth_thread_t th)
   q->ptr[b] = th;
   MYTH_VERIF_FPOINT("put_b");
   q->base = b;
-  MYTH_VERIF_EV2("QPut", VQ(q), VD(th));
+  MYTH_VERIF_EVQ2("QPut", VQ(q), VD(th), q->top - q->base);
   MYTH_VERIF_FPOINT("put_ulf");
   myth_wsqueue_lock_unlock(&q->lock);
 #if USE_LOCK || USE_LOCK_PUSH
